@@ -149,9 +149,10 @@ Violations(cfg, A, lk, ct, d) ==
         \* giving up while a server that can answer in time is still owed a chance
         \cup (IF gaveUp THEN {GiveUpKind(cfg, A, lk, d, pend)} ELSE {})
 
-\* for the report: was a request launched before the deadline still on its way at the deadline?
+\* for the report: did a request launched up to the deadline (a reconnect-and-resend may start at that
+\* very instant) outlive it?
 InFlightAtDeadline(A, lk, dl) ==
-    \E i \in DOMAIN A : A[i].o = lk.origin /\ A[i].st < dl /\ (A[i].res = "" \/ A[i].en > dl)
+    \E i \in DOMAIN A : A[i].o = lk.origin /\ A[i].st <= dl /\ (A[i].res = "" \/ A[i].en > dl)
 
 DeadlineCause(A, lk, dl, d) ==
     IF d.class = "hung" THEN "never-completed"
